@@ -278,6 +278,30 @@ def ro_array(g, probe, acc):
             if not abs(b - s) <= _a(g, s):
                 out.append((_key("stress/not-the-inverse-of-strain/array"), {"stress": s, "got": b, "allowed": _a(g, s), "strains": el}))
                 break
+        # history on ONE RambergOsgood object with a re-used strain BUFFER: the array is refilled in place with other
+        # strains (half of them) and the same object is asked again; then the *returned* array is overwritten by the caller
+        # and the same question is asked once more.  Each answer must be that of a fresh object.
+        buf = np.array(el, dtype=float)
+        first = _inv(g, ro.stress, buf)
+        buf[:] = 0.5 * np.array(el, dtype=float)
+        st2, second = _inv(g, ro.stress, buf)
+        st3, fresh = _inv(g, _ro(g).stress, 0.5 * np.array(el, dtype=float))
+        acc.evaluations += 3
+        if st2 != "raised" and st3 != "raised":
+            second = np.array(second, dtype=float)
+            fresh = np.asarray(fresh, dtype=float)
+            if not np.array_equal(second, fresh):
+                out.append((_key("stress/kept-object-answers-differently-for-a-refilled-array"),
+                            {"strains": (0.5 * np.array(el)).tolist(), "kept_object": second.tolist(), "fresh_object": fresh.tolist()}))
+            else:
+                _, got2 = _inv(g, ro.stress, buf)
+                if isinstance(got2, np.ndarray):
+                    got2 *= 1e-6                       # the caller scales the returned array in place ...
+                st4, third = _inv(g, ro.stress, buf)   # ... and asks the same question again
+                acc.evaluations += 2
+                if st4 != "raised" and not np.array_equal(np.asarray(third, dtype=float), fresh):
+                    out.append((_key("stress/kept-object-returns-an-array-the-caller-modified"),
+                                {"kept_object": np.asarray(third, dtype=float).tolist(), "fresh_object": fresh.tolist()}))
     de = np.asarray(ro.delta_strain(arr), dtype=float)
     acc.evaluations += 1
     for s, x in zip(axis, de.tolist()):
@@ -405,6 +429,23 @@ def hooke_state(g, probe, acc):
         acc.evaluations += 1
         if not _close(sb, (s11, s22, s12), sc_s):
             out.append((_hk("plane-stress/stress-of-strain-not-identity"), {"stress": [s11, s22, s12], "got": [float(x) for x in sb]}))
+        # ---- integer typed input (stresses given as whole MPa numbers: python ints and integer arrays): the same numbers as
+        #      for the equal float input, for plane stress, plane strain (inherits) and 3D
+        ints = [int(x) * 100 for x in st]
+        for tag, conv in (("python-ints", lambda v: [int(x) for x in v]), ("int-arrays", lambda v: [np.array([int(x)]) for x in v])):
+            for lawname, law, args_i, args_f in (
+                    ("plane-stress", ps, conv(ints), [float(x) for x in ints]),
+                    ("plane-strain", H.HookesLaw2dPlaneStrain(E, nu), conv(ints), [float(x) for x in ints]),
+                    ("3d", H.HookesLaw3d(E, nu), conv(ints + ints), [float(x) for x in ints + ints])):
+                try:
+                    gi = [float(np.asarray(x).reshape(-1)[0]) for x in law.strain(*args_i)]
+                    gf = [float(np.asarray(x).reshape(-1)[0]) for x in law.strain(*args_f)]
+                except Exception as e:          # noqa: BLE001
+                    out.append((_hk("%s/integer-input-raises-%s" % (lawname, type(e).__name__)), {"stress": ints, "container": tag, "message": str(e)[:160]}))
+                    continue
+                acc.evaluations += 2
+                if gi != gf:
+                    out.append((_hk("%s/integer-typed-input-gives-other-numbers" % lawname), {"stress": ints, "container": tag, "got": gi, "float_input": gf}))
         # ---- plane strain
         pe = H.HookesLaw2dPlaneStrain(E, nu)
         s4 = pe.stress(e11, e22, g12)
